@@ -90,7 +90,7 @@ for pid, (text, note, ref) in CLAIMS.items():
 hooks = subprocess.run(["git", "-C", "/repo", "log", "--format=%H %s", "--grep=^verif:"], capture_output=True, text=True).stdout.strip().splitlines()
 m = {
  "version": 1,
- "setup_cmd": "cd /verif && mkdir -p java/classes work && javac -cp /opt/veriftools/tla/tla2tools.jar -d java/classes java/verifbig/*.java && cd harness && cargo build --offline",
+ "setup_cmd": "cd /verif && mkdir -p java/classes work && javac -cp /opt/veriftools/tla/tla2tools.jar -d java/classes java/verifbig/*.java && cd harness && cargo build --offline && cd /repo && CARGO_TARGET_DIR=/verif/work/intree-target RUSTFLAGS='--cfg orca_so_whirlpools_verif' cargo test --workspace --offline --no-run",
  "hooks": {"guard": "orca_so_whirlpools_verif",
            "enable": "rustflags --cfg orca_so_whirlpools_verif in /verif/harness/.cargo/config.toml (the harness has a path dependency on /repo/programs/whirlpool)",
            "baseline_off_cmd": "cd /repo && cargo test --workspace --no-fail-fast --offline",
